@@ -151,7 +151,7 @@ def finishVal (T : Tables) (st : St) (name : String) (found : Text) : String × 
     | none =>
       if found == atCharset && hasAt (st.rest.drop found.length) [32]
       then ("CHARSET_SYM", found ++ [32], found ++ [32])
-      else ("ATKEYWORD", found, found)
+      else ("ATKEYWORD", found, unicodeSub T found)     -- an unknown at-keyword is unescaped like any name
   else (name, found, found)
 
 def finish (T : Tables) (cfg : Cfg) (st : St) (name0 : String) (found0 rem : Text) : Res :=
